@@ -255,8 +255,40 @@ fn gone_child(callers: usize) -> i32 {
     0
 }
 
+/// A chain of `n` assets, each loading the next one; loaded bottom-up (no deep recursion on the
+/// loading thread), then the bottom file is edited: one pass walks the whole chain and reloads every
+/// asset of it, on the reloader thread.
+fn deep_child(n: usize) -> i32 {
+    trace_enable(false);
+    let mem = Mem::new(true);
+    for i in 0..n {
+        let script = if i + 1 < n { format!("val 1\nload N c{}", i + 1) } else { "val 1".to_string() };
+        mem.write(&format!("c{i}"), "n", script.as_bytes());
+    }
+    let cache = AssetCache::with_source(mem.clone());
+    for i in (0..n).rev() {
+        if cache.load::<TNode>(&format!("c{i}")).is_err() {
+            eprintln!("load of c{i} failed");
+            return 8;
+        }
+    }
+    let top = cache.load::<TNode>("c0").unwrap().read().0.n;
+    mem.write(&format!("c{}", n - 1), "n", b"val 2");
+    mem.send(vec![OwnedDirEntry::File(format!("c{}", n - 1).into(), "n".into())]);
+    std::thread::sleep(Duration::from_millis(50));
+    cache.hot_reload();
+    let now = cache.load::<TNode>("c0").unwrap().read().0.n;
+    if now == top + 1 {
+        0
+    } else {
+        eprintln!("after the pass: c0 = {now}, expected {}", top + 1);
+        7
+    }
+}
+
 pub fn child(a: &Args) -> i32 {
     match a.get("kind") {
+        Some("deep") => deep_child(a.get("n").and_then(|x| x.parse().ok()).unwrap_or(1000)),
         Some("gone") => gone_child(a.get("n").and_then(|x| x.parse().ok()).unwrap_or(1)),
         Some("flood") => flood_child(a.get("n").and_then(|x| x.parse().ok()).unwrap_or(100)),
         Some("shape") => shape_child(a.get("spec").unwrap_or("1;")),
@@ -340,7 +372,7 @@ fn all_shapes(max_nodes: usize, rng: &mut Rng, extra_random: usize) -> Vec<Strin
 
 pub fn run(a: &Args) {
     let mut rng = Rng::new(a.seed);
-    let parts = a.get("parts").unwrap_or("shapes,panic,flood,conc,gone").to_string();
+    let parts = a.get("parts").unwrap_or("shapes,panic,flood,conc,gone,deep").to_string();
     let mut evals = 0u64;
     let mut samples: Vec<String> = vec![];
     let mut distinct = std::collections::HashSet::new();
@@ -439,6 +471,23 @@ pub fn run(a: &Args) {
                 );
                 break;
             }
+        }
+    }
+
+    // (F) a deep dependency chain walked and reloaded in one pass
+    if parts.contains("deep") && a.replay.is_none() {
+        let n = if a.thorough() { 5000 } else { 1500 };
+        evals += 1;
+        distinct.insert(format!("deep {n}"));
+        if let Err(e) = run_child(&["--kind", "deep", "--n", &n.to_string()], Duration::from_secs(60)) {
+            violation(
+                &a.out,
+                "hot_reload-stall",
+                format!(
+                    "{{\"kind\": \"a chain of {n} assets, each loading the next; the bottom one is edited\", \"chain\": {n}, \"observed\": {}}}",
+                    jstr(&e)
+                ),
+            );
         }
     }
 
